@@ -259,10 +259,6 @@ def match_finding(finding, failure):
     if not sig:
         return False
     case = failure.get("case")
-    if sig == "diff-variable-adjacent":
-        # phil --diff on raw user files: an unresolved $(NAME) that must keep its parentheses (identifier characters follow,
-        # or NAME is dotted) is written back as $NAME...
-        return isinstance(case, dict) and "users" in case and any(cli_streams.needs_parens(u) for u in case["users"])
     try:
         return sig in c07.signatures_of_case(case)
     except Exception:
